@@ -19,7 +19,7 @@ PROPS = {
              "depth limit; all i64 boundaries +-2^(8k-1)+-{0,1,2} and random magnitudes. non-trivial = distinct case whose implementation "
              "outcome is not error/incomplete",
         trusted=["modelled not verified: nom's streaming combinators (take/be_u8/bits), Vec/BytesMut"],
-        assumptions=["tag numbers <= 30 for parsing (the property's domain); content lengths < 2^64; nesting <= 100 constructed levels (limit of the repaired parser)"],
+        assumptions=["tag numbers <= 30 for parsing (the property's domain); content lengths < 2^64; the inverse law is proved for nesting within the repaired parser's limit (100 constructed levels below the top) - beyond it is known finding F36 (c07_refuted_F36), reported by the ber lane's oracle"],
     ),
     "C06": dict(
         groups=[("frame", 2000, 120000), ("conn", 300, 20000)],
@@ -28,7 +28,7 @@ PROPS = {
              "one and two random cut points, random small chunks, truncated streams; plus the connection scripts (responses through the real Framed<_, LdapCodec> of a live connection: two writes per message, bursts cut at an arbitrary byte, tails arriving together with the next message). non-trivial = distinct (stream, partition) with at least one delivery",
         trivial=["need:0", "error", "end"],
         trusted=["modelled not verified: tokio_util::codec::Framed as append-then-decode loop; BytesMut"],
-        assumptions=["messages are well-formed LDAPMessage envelopes in definite-length BER nested <= 100 levels"],
+        assumptions=["messages are well-formed LDAPMessage envelopes in definite-length BER nested <= 100 levels", "the default build; the codec of the optional gssapi feature is not modelled (known finding F45)"],
     ),
     "C11": dict(
         groups=[("hostile", 6000, 400000), ("ber", 600, 20000), ("conn", 300, 20000), ("faults", 120, 600), ("frame", 100, 4000)],
@@ -38,7 +38,7 @@ PROPS = {
              "simply incomplete",
         trivial=["need:0", "incomplete"],
         trusted=["modelled not verified: stack consumption (only recursion depth is modelled; the lane runs the real parser on 20000-level nests)"],
-        assumptions=["driver-level clauses (decode error observed by every pending operation, unknown op under a live search id) are decided with the connection model (C04 lane); this check covers the decoder"],
+        assumptions=["driver-level clauses (decode error observed by every pending operation, unknown op under a live search id) are decided with the connection model (C04 lane); this check covers the decoder", "what the decoder delivers is an envelope (c11_delivered_is_envelope, repair F38); the stray [10] element of Active Directory is tolerated on purpose, as the code says"],
     ),
     "C03": dict(
         groups=[("result", 2500, 150000), ("respctl", 1500, 100000), ("frame", 300, 20000), ("paged", 200, 10000), ("conn", 300, 20000)],
@@ -59,7 +59,7 @@ PROPS = {
              "with single insert/delete mutations; random bytes; recorded witnesses. non-trivial = distinct string the library accepts",
         trivial=["error"],
         trusted=["modelled not verified: nom combinators (alt/many0/opt/verify/fold_many0) as ordered choice / greedy repetition"],
-        assumptions=["the RFC-ambiguous shape a:dn:=v is read as the dn flag (c08_dn_rule_ambiguity); the oracle is silent on rule names literally equal to dn"],
+        assumptions=["the RFC-ambiguous shape a:dn:=v is read as the dn flag (c08_dn_rule_ambiguity); the oracle is silent on rule names equal to dn in any case", "nesting: the theorems hold for every depth on the model (recursion on fuel); the real parser recurses without bound (known finding F46), the lane stays at depth <= 3"],
     ),
     "C09": dict(
         groups=[("escape", 12000, 600000)],
@@ -77,7 +77,7 @@ PROPS = {
              "1 in 17 malformed; plus byte strings for Utf8.valid vs std::str::from_utf8. non-trivial = distinct well-formed entry/byte string (not a panic)",
         trivial=["panic"],
         trusted=["modelled not verified: HashMap (association list with replace-on-insert; keys sorted before comparison)"],
-        assumptions=["attribute names duplicate-free for the theorem (the lane also feeds repeated names and compares model and code)"],
+        assumptions=["none on the entry: attribute descriptions may repeat (repair F41; c15_construct is stated over vals_of, all the values sent under a description)"],
     ),
     "C20": dict(
         groups=[("url", 3000, 200000)],
@@ -183,7 +183,7 @@ PROPS = {
         rule="URL strings (schemes ldap/ldaps/ldapi/http/LDAP/ldapx x host localhost/127.0.0.1/empty/absent x port none/389/636/38901 x path forms, percent-encoded socket paths, ldapi with port, unparsable URLs) x settings (StartTLS, pre-opened TCP / Unix / invalid stream, connection timeout) "
              "against loopback listeners on 389, 636, 38901 and a Unix socket that record who was contacted and what the client sent first (nothing / LDAP / StartTLS request / TLS hello); plus an unreachable endpoint and a silent server under a connection timeout. non-trivial = distinct case that contacted an endpoint",
         trivial=["skipped", "err:url", "err:scheme", "err:mismatched", "err:portunix", "err:emptyunix", "oracle-only"],
-        trusted=["oracle, not modelled: the url crate (the model starts from scheme/host_str/port, re-checked per case), name resolution of localhost", "real sockets; listeners need ports 389/636/38901 (the lane reports 'skipped' if they cannot be bound)"],
+        trusted=["oracle, not modelled: the url crate (the model starts from scheme/host_str/port, re-checked per case), name resolution of localhost", "real sockets; listeners need ports 389/636/38901 (the lane reports 'skipped' if they cannot be bound)", "runtime behaviour no model exhibits, decided by an oracle-only case: the connection timeout against a stalled name lookup through both facades (setupx dns-stall: a mute UDP socket on 127.0.0.1:53 when /etc/resolv.conf names it and the port can be bound; skipped otherwise)"],
         assumptions=[],
     ),
     "C14": dict(
